@@ -14,7 +14,7 @@ impl Scenario for C12 {
         "Seeded single-connection programs covering every public operation of Channel, Queue, Exchange, Consumer, Delivery and Get (direct and through Queue/Exchange/Consumer/Get handles), every boolean option drawn independently, names 1..255 bytes, 5 argument-table shapes incl. every field type and nested tables. Oracle: a hand-written expectation table (expect.rs, from the AMQP 0-9-1 spec and the crate's documentation) gives the exact method per call; decoded method frames at the broker must equal it field by field, per channel, in order. Acking a delivery through a foreign channel must panic and write nothing. Pure translation: the simulator contributes the observation point (the wire) and the replies that make calls return. Non-trivial = >=6 distinct operation kinds in the run; distinct = hash of the multiset of (operation kind, option bits).".to_string()
     }
     fn plan(&self, thorough: bool, seed: u64) -> Vec<CaseSpec> {
-        plan_random("C12", "api", seed, if thorough { 80_000 } else { 4_000 })
+        plan_random("C12", "api", seed, if thorough { 160_000 } else { 8_000 })
     }
     fn run_case(&self, spec: &CaseSpec, text: bool) -> CaseReport {
         let mut cs = spec.stream();
